@@ -12,9 +12,9 @@ import PyodaProofs.C08Create
 namespace Pyoda.C08
 open Pyoda Pyoda.Text
 
-/-- steps whose format/parse actions are modelled (everything except the era and calendar fields) -/
+/-- steps whose parse action is modelled for every text (everything except the calendar field, whose model
+    stops at texts naming a calendar other than ISO) -/
 def stepModelled : Step → Bool
-  | .era => false
   | .calendar => false
   | _ => true
 
@@ -39,6 +39,25 @@ theorem parseSteps_total (cu : Culture) : ∀ (steps : List Step) (l : Text) (b 
     | none => exact ⟨_, rfl⟩
     | some p => obtain ⟨b', l'⟩ := p; exact ih l' b' h.2
 
+/-- `_LocalDateTimeParseBucket._combine_buckets` never raises: the only raise inside (`plus_days(1)` on the last
+    day of the calendar) is turned into a failure result -/
+theorem dtValue_total (tm : Tmpl) (used : Nat) (b : Bucket) : ∃ r, dtValue tm used b = .ok r := by
+  unfold dtValue
+  dsimp only
+  split
+  · exact ⟨_, rfl⟩
+  · split
+    · exact ⟨_, rfl⟩
+    · split
+      · split
+        · exact ⟨_, rfl⟩
+        · split
+          · exact ⟨_, rfl⟩
+          · rename_i e hne he
+            exact absurd (plusOneDay_error _ _ _ e he) hne
+          · exact ⟨_, rfl⟩
+      · exact ⟨_, rfl⟩
+
 theorem bucketValue_total (ty : PType) (used : Nat) (b : Bucket) : ∃ r, bucketValue ty used b = .ok r := by
   unfold bucketValue
   cases ty with
@@ -49,8 +68,12 @@ theorem bucketValue_total (ty : PType) (used : Nat) (b : Bucket) : ∃ r, bucket
     unfold offsetBucketValue
     obtain ⟨o, ho⟩ := offsetValue_total (decide (b .sign = 1)) (b .hours24) (b .minutes) (b .seconds)
     rw [ho]; exact ⟨_, rfl⟩
+  | datetime tm =>
+    dsimp only
+    obtain ⟨o, ho⟩ := dtValue_total tm used b
+    rw [ho]; exact ⟨_, rfl⟩
 
-/-- a stepped pattern of any of the three types: no exception for any text -/
+/-- a stepped pattern of any of the modelled types: no exception for any text -/
 theorem parseCompiled_total (ty : PType) (c : Compiled) (l : Text) (h : c.steps.all stepModelled = true) :
     ∃ r, parseCompiled ty c l = .ok r := by
   unfold parseCompiled
@@ -256,7 +279,13 @@ theorem handleOffset_grows (cu : Culture) (c : Char) (rest : Text) (st st' : CSt
   | some r => rw [hc] at h; dsimp only at h; rw [h] at hc; exact handleCommon_grows c rest st st' k hc
   | none => rw [hc] at h; dsimp only at h; grows_cases
 
-theorem compileLoop_modelled (ty : PType) (hty : ty ≠ .date) (cu : Culture) : ∀ (fuel : Nat) (text : Text) (st st' : CSt),
+/-- the types whose handler table has no calendar field -/
+def noCalendarField : PType → Bool
+  | .time => true
+  | .offset => true
+  | _ => false
+
+theorem compileLoop_modelled (ty : PType) (hty : noCalendarField ty = true) (cu : Culture) : ∀ (fuel : Nat) (text : Text) (st st' : CSt),
     compileLoop ty cu fuel text st = .ok st' → st.steps.all stepModelled = true → st'.steps.all stepModelled = true := by
   intro fuel
   induction fuel with
@@ -280,13 +309,14 @@ theorem compileLoop_modelled (ty : PType) (hty : ty ≠ .date) (cu : Culture) : 
           unfold handleChar at hh
           cases ty with
           | time => exact handleTime_grows cu c rest st st1 k hh
-          | date => exact absurd rfl hty
+          | date => cases hty
           | offset => exact handleOffset_grows cu c rest st st1 k hh
+          | datetime tm => cases hty
         obtain ⟨added, e1, e2⟩ := g
         exact ih _ st1 st' h (by rw [e1, List.all_append, hs, e2]; rfl)
 
 /-- every LocalTime / Offset stepped pattern that `compileCustom` builds consists of modelled steps -/
-theorem compileCustom_modelled (ty : PType) (hty : ty ≠ .date) (cu : Culture) (text : Text) (c : Compiled)
+theorem compileCustom_modelled (ty : PType) (hty : noCalendarField ty = true) (cu : Culture) (text : Text) (c : Compiled)
     (h : compileCustom ty cu text = .ok c) : c.steps.all stepModelled = true := by
   unfold compileCustom at h
   cases h1 : compileLoop ty cu text.length text ⟨0, []⟩ with
@@ -298,7 +328,7 @@ theorem compileCustom_modelled (ty : PType) (hty : ty ≠ .date) (cu : Culture) 
     · injection h with h; rw [← h]
       exact compileLoop_modelled ty hty cu _ _ _ _ h1 rfl
 
-theorem steppedOf_patOK (ty : PType) (hty : ty ≠ .date) (cu : Culture) (t : Text) (p : Pat)
+theorem steppedOf_patOK (ty : PType) (hty : noCalendarField ty = true) (cu : Culture) (t : Text) (p : Pat)
     (h : steppedOf (compileCustom ty cu t) = .ok p) : patOK p = true := by
   unfold steppedOf at h
   cases hc : compileCustom ty cu t with
@@ -312,8 +342,8 @@ theorem compileTime_patOK (cu : Culture) (ptext : Text) (p : Pat) (h : compileTi
   unfold compileTime at h
   split at h
   · cases h
-  · repeat' (first | exact steppedOf_patOK .time (by decide) _ _ p h | cases h | split at h)
-  · exact steppedOf_patOK .time (by decide) _ _ p h
+  · repeat' (first | exact steppedOf_patOK .time rfl _ _ p h | cases h | split at h)
+  · exact steppedOf_patOK .time rfl _ _ p h
 
 theorem compileOffsetText_patOK (cu : Culture) (t : Text) (p : Pat) (h : compileOffsetText cu t = .ok p) : patOK p = true := by
   unfold compileOffsetText at h
@@ -326,8 +356,8 @@ theorem compileOffsetText_patOK (cu : Culture) (t : Text) (p : Pat) (h : compile
       | ok c =>
         rw [hc] at h; injection h with h; rw [← h]
         simp only [patOK]
-        exact compileCustom_modelled .offset (by decide) cu rest c hc
-    · exact steppedOf_patOK .offset (by decide) _ _ p h
+        exact compileCustom_modelled .offset rfl cu rest c hc
+    · exact steppedOf_patOK .offset rfl _ _ p h
 
 theorem sequenceR_patsOK (l : List (R Pat)) (hl : ∀ r ∈ l, ∀ p, r = .ok p → patOK p = true) (ps : List Pat)
     (h : sequenceR l = .ok ps) : patsOK ps = true := by
